@@ -783,3 +783,32 @@ Proof.
   destruct (logstore_after_import_proved ls _ Hi Ht) as (ls' & H1 & _ & _ & H2 & _).
   exists old, ls'. destruct Hp as (_ & _ & H3 & _). auto.
 Qed.
+
+(* ------------------------------------------------------------------ *)
+(* restart                                                              *)
+
+(* an imported record is loaded on the initial recovery, whatever the state
+   machine kind and whatever the on-disk state machine reports as applied *)
+Lemma restart_loads_imported_image dst old members on_disk_sm last_applied ondisk_init ondisk :
+  s_dummy old = false -> last_applied < s_index old ->
+  do_recover on_disk_sm false last_applied ondisk_init ondisk (get_processed dst old members) true = RcLoaded.
+Proof.
+  intros Hd Hl. unfold do_recover.
+  Local Transparent get_processed.
+  unfold get_processed. cbn [s_index s_witness s_dummy s_imported s_ondisk].
+  rewrite Hd. cbn [orb].
+  destruct (s_index old <=? last_applied) eqn:E; [apply N.leb_le in E; lia|].
+  destruct on_disk_sm; cbn [negb]; [|reflexivity].
+  unfold recover_required, check_recover_on_disk. cbn [s_imported s_ondisk].
+  reflexivity.
+Qed.
+
+(* the flag is what does it: the same record without it (OnDiskIndex is not
+   copied, so it is 0) is skipped by an on-disk state machine *)
+Lemma restart_without_flag_skips :
+  exists ss ondisk, s_imported ss = false /\ s_index ss = 100 /\
+    do_recover true false 0 ondisk ondisk ss true = RcSkipped.
+Proof.
+  exists (mkSS [] 0 100 1 (mkM 0 [] [] [] []) [] [] false 1 sm_ondisk false 0 false), 7.
+  vm_compute. auto.
+Qed.
